@@ -107,6 +107,18 @@ CLAIMED = {
             'cstring line joining is proved for one break; two known findings (one-component SEQUENCE values read as OID, letter arcs)',
             'Coq proof (induction over literal length, finite sweeps lifted) + regenerated tables + differential correspondence + '
             'symbolic evaluation of generated initialisers'),
+    'C18': ('proof',
+            'Theorems for types of ANY depth and width: the TypeScript declaration the back end renders is the canonical notation of the '
+            'type\'s JER (X.697) shape -- members in order with `?` exactly for OPTIONAL / DEFAULT, arrays for SEQUENCE OF / SET OF with a '
+            'union element parenthesised, string-literal unions of the enumeral names as written, a union of single-key objects for '
+            'CHOICE, the index signature exactly for extensible SEQUENCE / SET, hyphens mangled in every identifier -- and its braces, '
+            'brackets and parentheses are balanced. Hand model of type_to_tokens and the templates as token sequences, tied by '
+            'correspondence on the tokenised real output. One declaration per type assignment in the module\'s namespace, names declared '
+            'or imported, and the shape recovered by an independent structural TypeScript parser are decided by search over module sets',
+            '§6 C18',
+            'partial: the namespace / import wrapper and value rendering are covered by the search only; selection types, COMPONENTS OF '
+            'and extension groups are outside the generator (two known findings)',
+            'Coq proof (nested induction over the type) + differential correspondence on token sequences + independent TS shape parser'),
     'C08': ('proof',
             'partial. Proved for every input: the nestable-comment scanner never slices out of range; the error-excerpt arithmetic '
             '(until_next_unindented, contextualize) stays in range and on character boundaries for every report the position '
